@@ -176,6 +176,8 @@ def execute(st, ctx):
 
     if sim.deadlock:
         out.violate("C11.deadlock", sig, describe())
+    elif sim.capped:
+        out.violate("C11.calls_do_not_terminate", sig, dict(describe(), steps=sim.seq))
     elif not sim.capped:
         if over:
             out.violate("C11.currsize_exceeds_maxsize", sig, dict(describe(), at=over[0]))
